@@ -947,3 +947,21 @@ silent("c05-pair-persist-only-when-paid", ["C05", "C06"],
 		k.SetAccountVestingPools(ctx, accVestingPools)
 	}
 	k.Logger(ctx).Debug("set account vesting pools", "ownerAddress", accVestingPools.Owner, "newVestingPools", accVestingPools.VestingPools)"""))
+
+# ---------------- round-6 rules ----------------
+SIGUTIL = "x/cfesignature/util/signature.go"
+fire("c15-algtable-hash-of-another-row", "C15", ["C15.algtable"],
+     (SIGUTIL, '	{x509.SHA256WithRSA, "sha256WithRsaEncryption", x509.RSA, crypto.SHA256},', '	{x509.SHA256WithRSA, "sha256WithRsaEncryption", x509.RSA, crypto.SHA384},'))
+fire("c15-algtable-name-of-another-digest", "C15", ["C15.algtable"],
+     (SIGUTIL, '	{x509.ECDSAWithSHA256, "ecdsaWithSha256", x509.ECDSA, crypto.SHA256},', '	{x509.ECDSAWithSHA256, "ecdsaWithSha384", x509.ECDSA, crypto.SHA256},'))
+silent("c15-algtable-consistent-row-added", "C15",
+       (SIGUTIL, '	{x509.SHA256WithRSA, "sha256WithRsaEncryption", x509.RSA, crypto.SHA256},', '	{x509.SHA256WithRSA, "sha256WithRsaEncryption", x509.RSA, crypto.SHA256},\n	{x509.SHA384WithRSA, "sha384WithRsaEncryption", x509.RSA, crypto.SHA384},'))
+CONTAINS_OLD = "	for _, minter := range params.Minters {\n		if sequenceId == minter.SequenceId {\n			return true\n		}\n	}\n	return false\n}"
+fire("c13-contains-stops-at-larger-id", ["C13", "C10"], ["C13.current", "C10.currentperiod"],
+     (MINTYPES, CONTAINS_OLD, "	for _, minter := range params.Minters {\n		if sequenceId == minter.SequenceId {\n			return true\n		}\n		if minter.SequenceId > sequenceId {\n			return false\n		}\n	}\n	return false\n}"))
+silent("c13-contains-index-loop", ["C13", "C10"],
+       (MINTYPES, CONTAINS_OLD, "	for i := range params.Minters {\n		if params.Minters[i].SequenceId == sequenceId {\n			return true\n		}\n	}\n	return false\n}"))
+fire("c12-import-traces-through-append", "C12", ["C12.verbatim"],
+     ("x/cfevesting/genesis.go", "		k.SetVestingAccountTrace(ctx, elem)", "		k.AppendVestingAccountTrace(ctx, elem)"))
+fire("c19-rate-from-truncated-amount", "C19", ["C19.sameprecision"],
+     (MINTYPES, "	mintedYearly := epochAmount.MulInt64(int64(year)).QuoInt64(epoch)", "	mintedYearly := sdk.NewDecFromInt(epochAmount.TruncateInt()).MulInt64(int64(year)).QuoInt64(epoch)"))
